@@ -18,3 +18,8 @@ def check(A):
     R.driver_fifo_rule(A, 'C04')
     from . import C02
     C02.check(A, only_decode=True, prefix='C04')
+    # the payload text a handler sees is the one decode() produces (shared with C01); the
+    # ASGI driver hands the whole POST body over
+    from . import C01
+    C01.decode_cases(A, A.model.const_value(A.model.module('packet'), 'MESSAGE'), prefix='C04')
+    R.asgi_body_rule(A, 'C04')
